@@ -756,6 +756,15 @@ def arithF32 : Arith Float32 where
   lt := fun a b => a < b
   beq := fun a b => a == b
 
+/-- `absreal(x) < FMatrixPrecision<>::absolute_limit()`: a `vector < double` comparison; whether the `double` limit reaches
+    the lanes in its own type or converted to the lanes' type is read off the translated vector-scalar comparison overload -/
+def belowLimit {α : Type} (T : Sem α) (abs : α → α) (lim : Float) (c : CmpOpName) (x : α) : Bool :=
+  match CmpOp.ofName c with
+  | some op =>
+    ((Simd.passScalar loop_COMPARISON_OP_vs.scalarTy T.ofNum (fun s => some s.truth) (Num.f64 lim)).bind
+      (cmpArgL T op (abs x))).getD false
+  | none => false
+
 /-- one SIMD number type of the matrix cases: the `SimdLike` instance, the scalar arithmetic and the codec -/
 structure Ctx (V : Type → Type) (L : Nat) (K : Type) where
   X : SimdLike V L
@@ -765,16 +774,19 @@ structure Ctx (V : Type → Type) (L : Nat) (K : Type) where
   showK : K → String
   ofLanes : List K → Option (V K)
   toLanes : V K → List K
+  /-- `fvmeta::absreal(x) < FMatrixPrecision<>::absolute_limit()` (the limit is a `double`, also for `float` lanes) -/
+  below : Float → CmpOpName → K → Bool
 
 def ctxLoop64 (S : Nat) : Ctx (fun α => Vec α S) S Float :=
   { X := SimdLike.loop S, R := arithF64, sq := Float.sqrt, parseK := semF64.parse, showK := semF64.show,
-    ofLanes := mkVec S, toLanes := fun v => v.toList }
+    ofLanes := mkVec S, toLanes := fun v => v.toList, below := belowLimit semF64 Float.abs }
 def ctxLoop32 (S : Nat) : Ctx (fun α => Vec α S) S Float32 :=
   { X := SimdLike.loop S, R := arithF32, sq := Float32.sqrt, parseK := semF32.parse, showK := semF32.show,
-    ofLanes := mkVec S, toLanes := fun v => v.toList }
+    ofLanes := mkVec S, toLanes := fun v => v.toList, below := belowLimit semF32 Float32.abs }
 def ctxNested64 (S₁ S₂ : Nat) : Ctx (fun α => Vec (Vec α S₂) S₁) (S₁ * S₂) Float :=
   { X := SimdLike.nested S₁ S₂, R := arithF64, sq := Float.sqrt, parseK := semF64.parse, showK := semF64.show,
-    ofLanes := fun xs => ((chunks S₂ S₁ xs).mapM (mkVec S₂)).bind (mkVec S₁), toLanes := fun v => Simd.flatten v }
+    ofLanes := fun xs => ((chunks S₂ S₁ xs).mapM (mkVec S₂)).bind (mkVec S₁), toLanes := fun v => Simd.flatten v,
+    below := belowLimit semF64 Float.abs }
 
 section Generic
 variable {V : Type → Type} {L : Nat} {K : Type} (C : Ctx V L K)
@@ -815,6 +827,21 @@ def execMatG (what : String) (n : Nat) (piv : Bool) (ta : String) (tb : Option S
       | none => "bad-op"
     | "fnorm2", none => "[" ++ showG C (frobeniusNorm2 X R A) ++ "]"
     | "infnorm", none => "[" ++ showG C (infinityNorm X R A) ++ "]"
+    | _, _ => noSuch
+
+/-- the configuration DUNE_FMatrix_WITH_CHECKING (`matc` op lines): `solveC` / `invertC` with the threshold test -/
+def execMatC (what : String) (n : Nat) (piv : Bool) (limit : Float) (ta : String) (tb : Option String) : String :=
+  let X := C.X
+  let R := C.R
+  let chk : Option (CmpOpName → K → Bool) := some (C.below limit)
+  match parseRM C n n ta with
+  | none => "bad-op"
+  | some (A : Mat (V K) n) =>
+    match what, tb with
+    | "solve", some tb => match parseVG C n tb with
+      | some b => match solveC X R chk piv A b with | some x => showVG C x | none => "ERR:FMatrix"
+      | none => "bad-op"
+    | "inv", none => match invertC X R chk piv A with | some B => showRM C B | none => "ERR:FMatrix"
     | _, _ => noSuch
 
 def execRectG (what : String) (r c : Nat) (rest : List String) : String :=
@@ -962,6 +989,49 @@ def execCplx (S : Nat) (what : String) (rest : List String) : String :=
     | some a, some b => res ((Simd.compareVV (fun (_ : CmpOp) x y => some (!ceq x y)) .ne a b).map sm) | _, _ => "bad-op"
   | _, _ => noSuch
 
+-- operands of another type in the generic functions of the abstraction layer (`layx`) ---------------------------------
+
+def withSem (t : String) (k : {α : Type} → Bool → Sem α → String) : String :=
+  match t with
+  | "f64" => k false semF64 | "f32" => k false semF32 | "i32" => k false (semInt 32) | "i64" => k false (semInt 64)
+  | "i16" => k false semI16 | "u32" => k false (semUInt 32) | "b" => k true semBool | _ => "bad-op"
+
+/-- `Simd::mask(v)` of a flat vector: the vector itself if it is a mask, otherwise `v != 0` (defaults.hh) -/
+def maskOfSem {α : Type} {S : Nat} (isMask : Bool) (T : Sem α) (v : Vec α S) : Option (Vec Bool S) :=
+  if isMask then some (v.map T.truth) else Simd.mask (fun op a b => some (T.cmp op a b)) T.zero v
+
+/-- is the conversion `U → T` of `s` defined (a floating-point value outside the range of an integer `T` is not)? -/
+def convDefined (t : String) (s : Num) : Bool :=
+  let inR := fun (lo hi x : Float) => !x.isNaN && x > lo - 1 && x < hi + 1
+  let fp : Option Float := match s with | .f64 x => some x | .f32 x => some x.toFloat | .int _ _ => none
+  match fp, t with
+  | some x, "i32" => inR (-2147483648.0) 2147483647.0 x
+  | some x, "i16" => inR (-32768.0) 32767.0 x
+  | some x, "u32" => inR 0.0 4294967295.0 x
+  | _, _ => true
+
+/-- `Simd::cond(mask, a, b)` with a mask that is not of type `Mask<V>`: interface.hh converts it with
+    `implCast<Mask<V>>` (defaults.hh: lane by lane), then the cond of the vector type -/
+def execCondM {α : Type} (T : Sem α) (how tm ta tb : String) : String :=
+  match how with
+  | "flat" =>
+    match parseFlat semBool.parse (2 * 2) tm, parseNested T.parse 2 2 ta, parseNested T.parse 2 2 tb with
+    | some m, some a, some b =>
+      res (((Simd.implCastToNested (S := 2) (S₂ := 2) false m).bind fun mm => Simd.condNested mm a b).map (showNested T.show))
+    | _, _, _ => "bad-op"
+  | "nest" =>
+    match parseNested semBool.parse 2 2 tm, parseFlat T.parse (2 * 2) ta, parseFlat T.parse (2 * 2) tb with
+    | some m, some a, some b =>
+      res (((Simd.implCastToFlat false m).bind fun mm => Simd.cond mm a b).map (showFlat T.show))
+    | _, _, _ => "bad-op"
+  | "al64" =>
+    match parseFlat semBool.parse 4 tm, parseFlat T.parse 4 ta, parseFlat T.parse 4 tb with
+    | some m, some a, some b =>
+      res ((((Simd.implCastLanes (laneCount 4 1) false (Simd.lane · m)).bind Simd.ofLanesFlat).bind fun mm => Simd.cond mm a b).map
+        (showFlat T.show))
+    | _, _, _ => "bad-op"
+  | _ => "bad-op"
+
 def redKindOf (s : String) : Option RedKind :=
   match s with
   | "anyTrue" => some .anyTrue | "allTrue" => some .allTrue | "anyFalse" => some .anyFalse | "allFalse" => some .allFalse
@@ -979,6 +1049,20 @@ def handle (line : String) : String :=
         | _ => "bad-op"
       else "bad-op"
     | none => "bad-op"
+  | "matc" :: what :: shape :: n :: piv :: lim :: ta :: rest =>
+    -- the checked configuration; `d4` = DynamicMatrix<LoopSIMD<double,4>>
+    match n.toNat?, semF64.parse lim with
+    | some n, some limit =>
+      let sizes : List Nat := match shape with
+        | "2" => [1, 2, 3] | "4" => [1, 2, 3, 4] | "2x2" => [2, 3] | "f4" => [1, 2, 3] | "d4" => [1, 2, 3, 4] | _ => []
+      if n ∈ sizes ∧ (piv = "0" ∨ piv = "1") then
+        let shp := if shape = "d4" then "4" else shape
+        match rest with
+        | [] => withShape shp fun C => execMatC C what n (piv == "1") limit ta none
+        | [tb] => withShape shp fun C => execMatC C what n (piv == "1") limit ta (some tb)
+        | _ => "bad-op"
+      else "bad-op"
+    | _, _ => "bad-op"
   | "dmat" :: what :: shape :: n :: piv :: ta :: rest =>
     -- DynamicMatrix: the same algorithms, run-time size 1..8 (no 1x1 specialisation of rightmultiply: not generated)
     match n.toNat? with
@@ -1016,6 +1100,29 @@ def handle (line : String) : String :=
     | "2" => execCplx 2 what rest
     | "4" => execCplx 4 what rest
     | _ => "bad-op"
+  | ["layx", "condm", t, how, tm, ta, tb] =>
+    match t with
+    | "f64" => execCondM semF64 how tm ta tb
+    | "i32" => execCondM (semInt 32) how tm ta tb
+    | _ => "bad-op"
+  | ["layx", "bcast", t, u, ts] =>
+    if t ∈ ["f64", "f32", "i32", "i16", "u32", "b"] ∧ u ∈ ["f64", "f32", "i32", "i64", "u32", "b"] then
+      match parseNum u ts with
+      | some s =>
+        if convDefined t s then
+          withSem t fun _ T => res ((T.ofNum s).map fun x => showFlat (S := 4) T.show (Simd.broadcast x))
+        else "invalid"
+      | none => "bad-op"
+    else "bad-op"
+  | ["layx", opn, t1, t2, ta, tb] =>
+    if (opn = "maskor" ∨ opn = "maskand") ∧ t1 ∈ ["f64", "i32", "b"] ∧ t2 ∈ ["f64", "i32", "b"] then
+      withSem t1 fun m1 T1 => withSem t2 fun m2 T2 =>
+        match parseFlat T1.parse 4 ta, parseFlat T2.parse 4 tb with
+        | some a, some b =>
+          res ((Simd.maskCombine (if opn = "maskor" then maskOrOp else maskAndOp) Simd.boolSem (maskOfSem m1 T1 a)
+            (maskOfSem m2 T2 b)).map (showFlat (S := 4) showB))
+        | _, _ => "bad-op"
+    else "bad-op"
   | ["realign", ta, tb] =>
     match parseFlat semF64.parse 4 ta, parseFlat semF64.parse 4 tb with
     | some a, some b =>
